@@ -66,7 +66,9 @@ ScribbleOut == /\ hasout /\ Op("scribble_out") /\ outver' = outver + 1
                /\ UNCHANGED << inver, dec, hasdec, outalias, hasout, encs, prot, helds, inlib >>
 \* Protect: payload list replaced by the Encrypted payload; the original payload objects must survive
 Protect == /\ ~prot /\ Op("protect") /\ srcver' = (IF ProtectKeepsPayloads THEN srcver ELSE srcver + 1) /\ prot' = TRUE
-           /\ UNCHANGED << inver, dec, hasdec, outver, outalias, hasout, encs, helds, inlib >>
+           \* it returns a datagram too: one more buffer in the caller's hands, which the (now protected) message must not reference
+           /\ hasout' = TRUE /\ outver' = 0 /\ outalias' = ~EncodeFresh /\ helds' = Append(Returned(helds), 0)
+           /\ UNCHANGED << inver, dec, hasdec, encs, inlib >>
 Observe == Op("observe") /\ UNCHANGED << inver, dec, hasdec, srcver, outver, outalias, hasout, encs, prot, helds, inlib >>
 
 Next == Decode("decode") \/ Decode("unprotect") \/ ScribbleIn \/ Encode \/ EncodeDec \/ ScribbleOut \/ Protect \/ Observe
